@@ -42,12 +42,13 @@ type Oblig struct {
 
 // Prog is the loaded program with lazily built views.
 type Prog struct {
-	Repo  string
-	Fset  *token.FileSet
-	Pkgs  []*packages.Package          // root packages (zrnt only)
-	ByPth map[string]*packages.Package // import path -> package (all, incl. deps)
-	Files int
-	Funcs int
+	Repo      string
+	Fset      *token.FileSet
+	Pkgs      []*packages.Package          // root packages (zrnt only)
+	ByPth     map[string]*packages.Package // import path -> package (all, incl. deps)
+	Files     int
+	Funcs     int
+	Desugared int // tagless switches rewritten as if-chains (desugar.go)
 
 	ssaOnce sync.Once
 	SSA     *ssa.Program
@@ -150,6 +151,7 @@ func load(o loadOpts) (*Prog, error) {
 		return nil, fmt.Errorf("only %d zrnt packages loaded, expected >= 10", len(p.Pkgs))
 	}
 	sort.Slice(p.Pkgs, func(i, j int) bool { return p.Pkgs[i].ID < p.Pkgs[j].ID })
+	p.Desugared = desugarSwitches(p)
 	return p, nil
 }
 
